@@ -11,7 +11,6 @@ from typing import Any, Dict, List, Optional, Set, Tuple
 from .cmodel import C_RT, get_c, get_macros
 from .core import Finding, Inconclusive, Repo, RuleResult, rule, short
 from .gomodel import Node, go_src
-from .rules_d2 import go_shape, judge
 
 
 def walk(n: Any):
@@ -43,95 +42,90 @@ VARIANTS = (("le", False), ("be", True))
 
 @rule("EC3", "C runtime: extensible processors, prefix coders and alias dispatch follow the layout rule (both build variants)")
 def ec3(repo: Repo) -> RuleResult:
+    from .flows import c_runtime
+    from .normal import C as K, V, show
+    from .pyflow import single_atom
+    from .rules_d2 import CS, ENC, Judged, _emit, _only_calls, check_children, judge_prefix, judge_processor, truth
+
     res = RuleResult("EC3", floor=10)
     for vname, be in VARIANTS:
         try:
-            c = get_c(repo, be)
+            L = c_runtime(repo, be)
         except Inconclusive as e:
             res.unsure(f"EC3[{vname}]: {e}")
             continue
+        child_prims = ("BpEndecodeMessageField", "BpEndecodeInt", "BpHandleIntSignAfterEndecode", "BpCopyBufferBits")
         for fn, kind in (("BpEndecodeMessage", "message"), ("BpEndecodeArray", "array")):
-            f = c.func(fn)
-            sh = go_shape(f, {"descriptor.cap": "capacity"})
-            sub = RuleResult("D3")
-            judge(sub, sh, kind, f"c-{vname}", C_RT, fn, f.line, ())
-            for i in sub.instances:
-                res.inst(**{**i, "part": "c"})
-            for fd in sub.findings:
-                fd.rule = "EC3"
-                fd.part = "c"
-                res.bad(fd)
-            for u in sub.inconclusive:
-                res.unsure(u.replace("D3:", f"EC3[{vname}]:"))
-            if kind == "message":
-                ok = sh.children is not None and sh.children.startswith("k := 0; k < descriptor.nfields; k++") and any("BpEndecodeMessageField(field_descriptor, ctx" in e for e in sh.events)
-                fdsrc = [s for s in walk(f) if s.get("k") == "assign" and go_src(s.lhs[0]) == "field_descriptor"]
-                ok = ok and len(fdsrc) == 1 and txt(fdsrc[0].rhs[0]) == "&descriptor.field_descriptors[k]"
-                if not ok:
-                    fd = Finding("EC3", C_RT, f.line, fn, str(sh.children), "fields are not processed as field_descriptors[0..nfields-1] in order", witness="a message with two fields: one is processed twice / skipped", tag=f"c:{fn}:children")
-                    fd.part = "c"
-                    res.bad(fd)
-        # prefix coders
-        for fn, data, is_enc in (
-            ("BpEncodeArrayExtensibleAhead", "descriptor.cap", True),
-            ("BpDecodeArrayExtensibleAhead", None, False),
-            ("BpEncodeMessageExtensibleAhead", "descriptor.nbits", True),
-            ("BpDecodeMessageExtensibleAhead", None, False),
-        ):
-            f = c.func(fn)
-            st = f.body.stmts
-            res.inst(part="c", function=fn, variant=vname, body=[go_src(s.rhs[0]) if s.k == "assign" else (go_src(s.x) if s.k == "exprstmt" else s.k) for s in st])
-            cs = calls(f, "BpEndecodeBaseType")
-            ok_width = len(cs) == 1 and go_src(cs[0].args[0]) == "16" and txt(cs[0].args[2]) in ("void*&data",)
-            decl = [s for s in st if s.k == "assign" and go_src(s.lhs[0]) == "data"]
-            ok_type = len(decl) == 1 and decl[0].get("decl_type") == "uint16_t"
-            if not ok_width or not ok_type:
-                fd = Finding("EC3", C_RT, f.line, fn, "", "the prefix is not processed as exactly 16 bits through a uint16_t staging variable", witness="every extensible item shifts all following fields", tag=f"c:{fn}:width")
-                fd.part = "c"
-                res.bad(fd)
-            if is_enc and decl and txt(decl[0].rhs[0]) != f"uint16_t{data}":
-                fd = Finding("EC3", C_RT, f.line, fn, go_src(decl[0].rhs[0]), f"the encoder does not write {data} as the prefix", witness="receivers skip by a wrong amount", tag=f"c:{fn}:data")
-                fd.part = "c"
-                res.bad(fd)
-            if not is_enc:
-                rets = [s for s in st if s.k == "return"]
-                if not (decl and go_src(decl[0].rhs[0]) == "0" and rets and go_src(rets[-1].vals[0]) == "data"):
-                    fd = Finding("EC3", C_RT, f.line, fn, "", "the decoder does not return what was read into a zeroed variable", tag=f"c:{fn}:return")
-                    fd.part = "c"
-                    res.bad(fd)
+            try:
+                f = L.func(fn)
+                paths = L.flow(None, primitives=(CS.base,) + child_prims, names=CS.names).run(f)
+            except Inconclusive as e:
+                res.unsure(f"EC3[{vname}]: {fn}: {e}")
+                continue
+            j = Judged()
+            judge_processor(paths, CS, kind, j, lambda e: None)
+            judge_prefix(paths, CS, kind, j)
+            check_children(paths, CS, kind, j)
+            res.inst(part="c", function=fn, variant=vname, kind=kind, paths=len(paths), **j.info)
+            _emit(res, "EC3", "c", CS, fn, f.lineno, j, f"c-{vname}")
+        for fn in ("BpEncodeArrayExtensibleAhead", "BpDecodeArrayExtensibleAhead", "BpEncodeMessageExtensibleAhead", "BpDecodeMessageExtensibleAhead"):
+            res.inst(part="c", function=fn, variant=vname, present=L.has(fn))
         # BpEndecodeInt: copy then sign step
-        f = c.func("BpEndecodeInt")
-        body = [go_src(s.x) for s in f.body.stmts if s.k == "exprstmt"]
-        res.inst(part="c", function="BpEndecodeInt", variant=vname, body=body)
-        if body != ["BpEndecodeBaseType(nbits, ctx, data)", "BpHandleIntSignAfterEndecode(size, nbits, ctx, data)"]:
-            fd = Finding("EC3", C_RT, f.line, "BpEndecodeInt", str(body), "signed integers are not: copy nbits, then the sign step with (size, nbits)", witness="negative int5 decodes as positive", tag="c:BpEndecodeInt")
-            fd.part = "c"
-            res.bad(fd)
-        # BpEndecodeBaseType advances the cursor by nbits exactly once
-        f = c.func("BpEndecodeBaseType")
-        adv = [s for s in walk(f) if s.get("k") == "assign" and go_src(s.lhs[0]) == "ctx.i"]
-        res.inst(part="c", function="BpEndecodeBaseType", variant=vname, advances=[f"{s.op} {go_src(s.rhs[0])}" for s in adv])
-        if len(adv) != 1 or adv[0].op != "+=" or go_src(adv[0].rhs[0]) != "nbits" or adv[0] not in f.body.stmts:
-            fd = Finding("EC3", C_RT, f.line, "BpEndecodeBaseType", "", "the stream cursor is not advanced by nbits exactly once per base value", tag=f"c:BpEndecodeBaseType:advance:{vname}")
-            fd.part = "c"
-            res.bad(fd)
-        cp = calls(f, "BpCopyBufferBits")
-        forms = sorted(",".join(txt(a) for a in x.args) for x in cp)
-        want_le = sorted(["nbits,ctx.s,unsignedchar*data,ctx.i,0", "nbits,unsignedchar*data,ctx.s,0,ctx.i"])
-        want_be = sorted(["nbits,ctx.s,le,ctx.i,0", "nbits,le,ctx.s,0,ctx.i"])
-        res.inst(part="c", function="BpEndecodeBaseType", variant=vname, copies=forms)
-        if forms != (want_be if be else want_le):
-            fd = Finding("EC3", C_RT, f.line, "BpEndecodeBaseType", str(forms), "the bit copier is not called as (nbits, stream, value, ctx->i, 0) on encode and (nbits, value, stream, 0, ctx->i) on decode", witness="encode copies from the stream into the value", tag=f"c:BpEndecodeBaseType:calls:{vname}")
-            fd.part = "c"
-            res.bad(fd)
-        for x in cp:
-            under = _guards_of(f, x)
-            first = txt(x.args[1])
-            is_enc_call = first == "ctx.s"
-            if ("ctx.is_encode" in under) != is_enc_call or ("!ctx.is_encode" in under) == is_enc_call:
-                fd = Finding("EC3", C_RT, x.line, "BpEndecodeBaseType", go_src(x), f"this copy runs under {sorted(under)}", tag=f"c:BpEndecodeBaseType:guard:{vname}:{first}")
+        try:
+            f = L.func("BpEndecodeInt")
+            paths = L.flow(None, primitives=(CS.base, "BpHandleIntSignAfterEndecode"), names=CS.names).run(f)
+            shapes = []
+            ok = True
+            for p in paths:
+                evs = _only_calls(p)
+                shapes.append(str(evs))
+                if not (len(evs) == 2 and evs[0].name == CS.base and [show(a) for a in evs[0].args] == ["nbits", "ctx", "data"] and evs[1].name == "BpHandleIntSignAfterEndecode" and [show(a) for a in evs[1].args] == ["size", "nbits", "ctx", "data"]):
+                    ok = False
+            res.inst(part="c", function="BpEndecodeInt", variant=vname, body=shapes)
+            if not ok:
+                fd = Finding("EC3", C_RT, f.lineno, "BpEndecodeInt", str(shapes), "signed integers are not: copy nbits, then the sign step with (size, nbits)", witness="negative int5 decodes as positive", tag="c:BpEndecodeInt")
                 fd.part = "c"
                 res.bad(fd)
+        except Inconclusive as e:
+            res.unsure(f"EC3[{vname}]: {e}")
+        # BpEndecodeBaseType: one copy in the right orientation, cursor advanced by nbits exactly once
+        try:
+            f = L.func("BpEndecodeBaseType")
+            paths = L.flow(None, primitives=("BpCopyBufferBits", "BpBaseTypeStorageSize"), names=CS.names).run(f)
+            forms = []
+            for p in paths:
+                enc = truth(p, ENC)
+                adv = [e for e in p.effects if e.kind == "setattr" and e.name == "cur"]
+                cps = [e for e in p.effects if e.kind == "call" and e.name == "BpCopyBufferBits"]
+                forms.append((enc, [str(c) for c in cps], [str(a) for a in adv]))
+                if len(adv) != 1 or adv[0].args[-1] != V("cur") + V("nbits"):
+                    fd = Finding("EC3", C_RT, f.lineno, "BpEndecodeBaseType", str([str(a) for a in adv]), "the stream cursor is not advanced by nbits exactly once per base value", witness="every field after the first decodes from the wrong position", tag=f"c:BpEndecodeBaseType:advance:{vname}")
+                    fd.part = "c"
+                    res.bad(fd)
+                if len(cps) != 1 or enc is None:
+                    fd = Finding("EC3", C_RT, f.lineno, "BpEndecodeBaseType", str([str(c) for c in cps]), f"a base value is copied {len(cps)} times on the path under {p.guard_text()} (expected once, selected by the encode flag)", tag=f"c:BpEndecodeBaseType:calls:{vname}")
+                    fd.part = "c"
+                    res.bad(fd)
+                    continue
+                a = cps[0].args
+                adv_i = p.effects.index(adv[0]) if adv else -1
+                if adv_i != -1 and adv_i < p.effects.index(cps[0]):
+                    fd = Finding("EC3", C_RT, f.lineno, "BpEndecodeBaseType", "", "the cursor is advanced before the bits are copied", tag=f"c:BpEndecodeBaseType:advance-order:{vname}")
+                    fd.part = "c"
+                    res.bad(fd)
+                s_, cur = "ctx.s", "cur"
+                got = [show(x) for x in a]
+                vi = 2 if enc else 1
+                want = ["nbits", s_, None, cur, "0"] if enc else ["nbits", None, s_, "0", cur]
+                got_n = [None if i == vi else g for i, g in enumerate(got)]
+                value_ok = len(got) == 5 and got[vi] != s_ and (be or got[vi] == "data")
+                if got_n != want or not value_ok:
+                    fd = Finding("EC3", C_RT, f.lineno, "BpEndecodeBaseType", str(got), "the bit copier is not called as (nbits, stream, value, ctx->i, 0) on encode and (nbits, value, stream, 0, ctx->i) on decode", witness="encode copies from the stream into the value", tag=f"c:BpEndecodeBaseType:calls:{vname}")
+                    fd.part = "c"
+                    res.bad(fd)
+            res.inst(part="c", function="BpEndecodeBaseType", variant=vname, paths=forms)
+        except Inconclusive as e:
+            res.unsure(f"EC3[{vname}]: {e}")
     return res
 
 
